@@ -62,6 +62,19 @@ PROPS = {
              "here); omitted min_periods with len<w skipped for the extrema/rank family (DESIGN 5.3). distinct = (function, backend, "
              "len bucket, window, min_periods, path, class) with >=1 non-null output",
     ),
+    "C06": dict(
+        bin="c06",
+        quick=NATIVE_Q, thorough=NATIVE_T,
+        floors={"prefix_pairs": 1000, "prefix_ok.ts_vkurt": 10, "prefix_ok.ts_vregx_resid_skew": 5, "prefix_ok.vdiff": 10,
+                "prefix_ok.vpct_change": 10, "prefix_ok.shift": 10, "history_ok.ts_vmin": 10, "history_ok.ts_vstd": 10,
+                "history_ok.ts_vcorr": 5, "history_positions": 1000},
+        rule="relational monitor over pairs of executions: (i) for every cut k in 0..=len the result on the prefix x[..k] must equal the "
+             "first k outputs on the whole series bit for bit - all 41 rolling entry points (Vec fast path and VecDeque default body, both "
+             "output paths) plus shift/vshift/vdiff/vpct_change with n>=0; omitted min_periods only for k>=w; (ii) two histories hA, hB "
+             "(finite, up to 1e3x the window's magnitude, any null pattern) followed by a common suffix: outputs whose window lies in "
+             "the suffix must agree exactly (min/max/arg/rank) or within the sum of the DESIGN 5.1 bounds of both runs. distinct = "
+             "(kind, function, backend, lengths, window, min_periods)",
+    ),
 }
 
 for _k in list(PROPS):
